@@ -17,8 +17,8 @@ REPO = os.environ.get("VK_REPO", "/repo")
 def run_one(m, props_default):
     d = tempfile.mkdtemp(prefix="vk-smoke-")
     try:
-        for sub in ("nexosim/src",):
-            shutil.copytree(os.path.join(REPO, sub), os.path.join(d, sub))
+        shutil.rmtree(d)
+        shutil.copytree(REPO, d, ignore=shutil.ignore_patterns("target", ".git"))
         for ed in m.get("edits", [m]):
             p = os.path.join(d, ed["file"])
             s = open(p).read()
